@@ -164,7 +164,7 @@ def index_formula(ctx):
             return (counts, edges)
 
         def theory(I_, lo, hi, system):
-            return alg.Fn("theory", lift(lo), lift(hi))
+            return alg.Fn("theory", lift(lo), lift(hi), getattr(system, "name", str(system)))
         I = Interp(ctx.program, stubs={"pydrex.stats.misorientation_hist": Native("hist", hist), "pydrex.stats.misorientations_random": Native("theory", theory)})
         cls = public(ctx, I, "pydrex.geometry.LatticeSystem")
         f = public(ctx, I, dotted)
@@ -173,8 +173,24 @@ def index_formula(ctx):
         except RaiseSig as r:
             ctx.ob("C14.index", f"misorientation_index:{name}", False, f"raises {r.exc.typename}", loc)
             continue
-        ref = lift(th) / (2 * nb) * sum((Abs(alg.Fn("theory", edges[i], edges[i + 1]) - counts[i]) for i in range(nb)), ZERO)
+        ref = lift(th) / (2 * nb) * sum((Abs(alg.Fn("theory", edges[i], edges[i + 1], name) - counts[i]) for i in range(nb)), ZERO)
         ident(ctx, "C14.index", f"misorientation_index:{name}", got, ref, loc)
+    # the index is a function of its arguments only: no module-level state is written on its path
+    ctx.rule("C14.pure", "no function on the M-index path writes module-level state (a memo shared between lattice systems or snapshots would make the result depend on call history)")
+    mods = {"pydrex.diagnostics": ("misorientation_index", "misorientation_indices"), "pydrex.stats": ("misorientation_hist", "misorientations_random", "_max_misorientation"),
+            "pydrex.geometry": ("misorientation_angles", "symmetry_operations"), "pydrex.utils": ("quat_product",)}
+    for mn, fnames in mods.items():
+        mod = ctx.program.module(mn)
+        for fname in fnames:
+            node = mod.defs.get(fname)
+            if not isinstance(node, ast.FunctionDef):
+                continue
+            eff = flow.effects_of_function(ctx.program, mod, node)
+            bad = [(k, n_, ln) for k, n_, ln in eff if k == "global" or (k in ("attr-store-free", "subscript-store-free", "aug-free")
+                                                                       and (n_.split(".")[0].split("[")[0] in mod.defs or n_.split(".")[0].split("[")[0] in mod.imports))]
+            ctx.ob("C14.pure", f"{mn.split('.')[-1]}.{fname}", not bad, "writes module-level state: " + ", ".join(f"{k} {n_} (line {ln})" for k, n_, ln in bad),
+                   f"{ctx.program.relpath(mod.path)}:{node.lineno}")
+    ctx.floor("C14.pure", 6)
     # histogram call inside misorientation_hist
     rec = {}
 
